@@ -58,6 +58,7 @@ def run(rep):
     rep.guard(x2, rep, w)
     rep.guard(x2b, rep, w)
     rep.guard(x3, rep, w)
+    rep.guard(x3c, rep, w)
     rep.guard(x4, rep, w)
     import c04
     rep.guard(c04.b2w, rep, w, 'X6')     # handler addresses (catch_ip / finally_ip) are computed from widened operands
@@ -227,8 +228,8 @@ def x3(rep, w):
     r = rep.rule('X3', 'a function that removes call frames also removes the handlers registered by those frames', floor=3)
     n = 0
     for f in sorted(c.fns.values(), key=lambda x: x.path):
-        if not (f.path.startswith(VM) or f.path.startswith('yarel::object::ObjFiber::')):
-            continue
+        if not (f.path.startswith(VM) or f.path.startswith('yarel::object::ObjFiber::') or f.path.startswith('yarel::core::')):
+            continue       # (natives too: a new ObjFiber helper is spliced into the native that calls it)
         org = None
         hits = []
         for bi, t in f.calls():
@@ -244,7 +245,19 @@ def x3(rep, w):
                 hits.append((bi, name))
         if not hits:
             continue
-        if all(h[1] == 'std::vec::Vec::clear' for h in hits):
+        # (a function that clears the frames and then pushes one again - a fiber rewound to its start - does not finish the fiber: it is
+        # judged like any other removal of frames)
+        fr = roles.resolve(w)['frames']
+        repush = False
+        for hb, _ in hits:
+            for b2 in f.reachable_blocks(hb):
+                t2 = f.blocks[b2]['t']
+                if t2['t'] == 'call' and b2 != hb:
+                    n2 = strip_generics(callee_name(t2) or '')
+                    p2 = op_place(t2['args'][0]) if t2['args'] else None
+                    if n2 == 'yarel::object::ObjFiber::push_call_frame' or (n2 == 'std::vec::Vec::push' and p2 is not None and any(fr in q for q in org.get(p2['l'], ()))):
+                        repush = True
+        if all(h[1] == 'std::vec::Vec::clear' for h in hits) and not repush:
             # removing every frame finishes the fiber; its handlers can only fire if it runs again, which
             # load_fiber refuses for a finished fiber
             lf = w.require_fn(VM + 'load_fiber', 'C08')
@@ -299,6 +312,52 @@ def x3(rep, w):
                 stack.extend(f.succs()[b])
         r.check(not straddle, f.path + ' / handlers dropped before any fiber switch', 'between removing the frames and dropping their handlers control can pass to another fiber '
                 '(unload_fiber / load_fiber): the handler list that is then cut down belongs to the other fiber - a try block around a fiber call loses its handler when the fiber finishes', f.loc())
+
+
+def x3c(rep, w, prop='C08'):
+    """a fiber that has finished - or that an uncaught error abandoned (reset_stack empties its frames, not its handler list) - can keep
+    entries on its handler list; they are harmless because load_fiber refuses to run a finished fiber. A function that makes such a
+    fiber runnable again by putting a frame back on its frame list (rewind / restart of a generator) therefore has to empty the
+    handler list too, or the fiber's next uncaught error is delivered to a catch block of the abandoned run."""
+    r = rep.rule('X3c', 'a function that puts an entry frame back on an existing fiber also empties its handler list', floor=1)
+    c = w.yarel
+    fr, hf = roles.resolve(w)['frames'], roles.resolve(w)['handlers']
+    n = 0
+    for f in sorted(c.fns.values(), key=lambda x: x.path):
+        if f.path in ('yarel::object::ObjFiber::new', 'yarel::object::ObjFiber::push_call_frame'):
+            n += 1
+            r.ok('%s (a new fiber / a call in a running fiber: nothing to empty)' % f.path.replace('yarel::', ''))
+            continue
+        org = None
+        pushes = []
+        for bi, t in f.calls():
+            if strip_generics(callee_name(t) or '') != 'std::vec::Vec::push' or len(t['args']) < 2:
+                continue
+            pl = op_place(t['args'][0])
+            el = op_place(t['args'][1])
+            if pl is None or el is None or not c.tstr(el.get('t', f.local_ty(el['l']))).endswith('CallFrame'):
+                continue
+            if org is None:
+                org = origins(f)
+            qs = org.get(pl['l'], ())
+            # the frame list of a fiber object (not a Vec local under construction)
+            if any(fr in q for q in qs) and not all(q[0][0] == 'call' and 'Vec' in q[0][2] for q in qs):
+                pushes.append(bi)
+        if not pushes:
+            continue
+        n += 1
+        cleared = False
+        for bi, t in f.calls():
+            sn = strip_generics(callee_name(t) or '')
+            if sn in ('std::vec::Vec::clear', 'std::vec::Vec::truncate') and t['args']:
+                pl = op_place(t['args'][0])
+                if pl is not None and any(hf in q for q in org.get(pl['l'], ())):
+                    cleared = True
+        r.check(cleared, '%s puts a frame on an existing fiber and empties its handlers' % f.path.replace('yarel::', ''),
+                '%s puts a call frame back on a fiber that already exists without emptying %s: a fiber abandoned by an uncaught error inside a try block keeps that handler, '
+                'and after the rewind its next uncaught error is delivered to the dead catch block' % (f.path, hf), f.loc(f.blocks[pushes[0]]['t'].get('sp')))
+    if n < 1:
+        raise Broken(prop, 'anchor', 'no function that puts a CallFrame on a fiber found')
 
 
 def x4(rep, w):
